@@ -309,6 +309,9 @@ FEXJAC_TEMPLATES = ["src/naunet_fex.cpp.j2", "src/naunet_jac.cpp.j2", "src/naune
                     "include/naunet_utilities.h.j2"]
 
 
+LAST_KERG = [None]        # Boltzmann's constant as the constants file rendered last defines it (None: file not rendered)
+
+
 def _render_with_constants(net_builder, solver, method, device, templates):
     """render the given templates plus the constants source (physical constants such as kerg are defined there); that file needs
     a binding energy for every ice species of the network: when it cannot be rendered the constants stay unresolved symbols
@@ -316,8 +319,11 @@ def _render_with_constants(net_builder, solver, method, device, templates):
     try:
         d = render(net_builder(), solver, method, device, templates=templates + ["src/naunet_constants.cpp.j2"])
         f = d / "src" / ("naunet_constants.cu" if (d / "src" / "naunet_constants.cu").exists() else "naunet_constants.cpp")
+        m = re.search(r"\bdouble\s+kerg\s*=\s*([0-9.eE+-]+)\s*;", f.read_text())
+        LAST_KERG[0] = float(m.group(1)) if m else None
         return d, [str(f)]
     except Exception:
+        LAST_KERG[0] = None
         return render(net_builder(), solver, method, device, templates=templates), []
 
 
